@@ -66,7 +66,10 @@ Definition predict : c04_case -> bool * bool := predict_with server12_checks_cli
    design: what must hold instead is that it steers nothing - the server negotiates from the second
    ClientHello (Hs/C04TranscriptSound.negotiation_input_bound) *)
 Definition predicts_untouched_params (k : c04_case) : bool :=
-  match k_effect k with ENone => server12_negotiates_from_second_hello | _ => false end.
+  match k_effect k with
+  | ENone => server12_negotiates_from_second_hello && server12_resets_inside_negotiation
+  | _ => false
+  end.
 
 Definition c04_ok (k : c04_case) : bool :=
   let '(pc, ps) := predict k in
